@@ -134,6 +134,6 @@ class Ref2:
         for i, n in enumerate(self.sn):
             if len(n.ins) > 0 and n.ins[0] is not None:
                 r[i] = self.line(n.ins[0])
-            elif len(n.ins) > 0 and is_state(n.kind):
-                r[i] = self.zero                      # unconnected data pin reads constant 0
+            elif is_state(n.kind):
+                r[i] = self.zero                      # unconnected (or absent) data pin reads constant 0
         return r
